@@ -121,14 +121,19 @@ def gen_form(t, max_parts=4, file_bias=2, big_file=None, allow_pre_epi=True):
             "final_crlf": t.draw(4) != 0 or bool(epilogue)}
 
 
+def _q(s):
+    """quoted-string content: backslash and double quote are sent as quoted pairs"""
+    return s.replace("\\", "\\\\").replace('"', '\\"')
+
+
 def part_headers(p):
     """Header lines of a part as (name, value) list in emission order."""
     if p["kind"] == "file":
-        hs = [("Content-Disposition", 'form-data; name="%s"; filename="%s"' % (p["name"], p["filename"]))]
+        hs = [("Content-Disposition", 'form-data; name="%s"; filename="%s"' % (_q(p["name"]), _q(p["filename"])))]
         if p.get("ctype"):
             hs.append(("Content-Type", p["ctype"]))
     else:
-        hs = [("Content-Disposition", 'form-data; name="%s"' % p["name"])]
+        hs = [("Content-Disposition", 'form-data; name="%s"' % _q(p["name"]))]
     if p.get("extra"):
         hs.append(p["extra"])
     return hs
